@@ -26,6 +26,8 @@ func init() {
 		func(t *vcTrial) { vcRunC14(t, vc14Cfg{Target: "refuse", Dials: 4, TimeoutUs: 500000}) },
 		func(t *vcTrial) { vcRunC14(t, vc14Cfg{Target: "accept", Dials: 16, TimeoutUs: 1}) },
 		func(t *vcTrial) { vcRunC14Storm(t, 240000, 8) },
+		func(t *vcTrial) { vcRunC14(t, vc14Cfg{Target: "accept", Dials: 64, TimeoutUs: 1000000, FaultPM: 300}) },
+		func(t *vcTrial) { vcRunC14(t, vc14Cfg{Target: "unix", Dials: 16, TimeoutUs: 1000000, FaultPM: 700}) },
 	}
 }
 
@@ -35,6 +37,7 @@ type vc14Cfg struct {
 	TimeoutUs int
 	Mode      int
 	P, Q      int
+	FaultPM   int // > 0: netpoll's own system calls of the dial path fail with this per-mille probability
 }
 
 var vc14P = []int{vpDialBeforeWait, vpDialCtxDone, vpDialBeforeFree, vpDialOnWrite, vpDialOnHup}
@@ -61,6 +64,9 @@ func vcScenC14(t *vcTrial) {
 		cfg.Mode = vcModePause
 		cfg.P = vc14P[r.intn(len(vc14P))]
 		cfg.Q = vc14Q[r.intn(len(vc14Q))]
+	}
+	if r.chance(25) {
+		cfg.FaultPM = []int{30, 100, 300, 700}[r.intn(4)]
 	}
 	vcRunC14(t, cfg)
 }
@@ -239,6 +245,18 @@ func vcRunC14(t *vcTrial, cfg vc14Cfg) {
 	}
 	vcSetPlan(t.Plan)
 	defer vcSetPlan(nil)
+	var faults *vcFaultPlan
+	if cfg.FaultPM > 0 {
+		// failing socket/setsockopt/connect/SO_ERROR/epoll_ctl at netpoll's wrappers: every dial must
+		// still end in exactly one of connection/error and leave nothing behind
+		faults = &vcFaultPlan{Seed: r.next()}
+		for _, site := range []int{vfltSocket, vfltSockopt, vfltConnect, vfltConnectSoError, vfltEpollCtlAdd, vfltEpollCtlMod} {
+			es := vcErrnoBy[site]
+			faults.Rules = append(faults.Rules, &vcFaultRule{Site: site, Errno: es[r.intn(len(es))], FD: -1, PerMille: cfg.FaultPM / 2})
+		}
+		vcSetFaults(faults)
+		defer vcSetFaults(nil)
+	}
 	timeout := time.Duration(cfg.TimeoutUs) * time.Microsecond
 	type dres struct {
 		c       Connection
@@ -281,6 +299,8 @@ func vcRunC14(t *vcTrial, cfg vc14Cfg) {
 		return
 	}
 	vcSetPlan(nil)
+	vcSetFaults(nil)
+	nfaults := int(faults.Fired())
 	// ---- judge every dial
 	ok, failed, timeouts, typedNil := 0, 0, 0, 0
 	var conns []Connection
@@ -306,11 +326,11 @@ func vcRunC14(t *vcTrial, cfg vc14Cfg) {
 				timeouts++
 			} else if strings.Contains(d.err.Error(), "i/o timeout") {
 				t.Violate("C14", "timeout_not_reported", "%s ended with %q (%T) after %v: a timeout whose error does not report Timeout()", desc, d.err.Error(), d.err, d.elapsed)
-			} else if d.elapsed >= timeout && timeout < 100*time.Millisecond && (cfg.Target == "drop") {
+			} else if d.elapsed >= timeout && timeout < 100*time.Millisecond && (cfg.Target == "drop") && nfaults == 0 {
 				// nothing but the timeout can end a dial to a silently dropping listener
 				t.Violate("C14", "timeout_not_reported", "%s failed after %v with %q (%T), which does not report Timeout()", desc, d.elapsed, d.err.Error(), d.err)
 			}
-			if cfg.Target == "accept" && timeout >= time.Second {
+			if cfg.Target == "accept" && timeout >= time.Second && nfaults == 0 {
 				t.Violate("C14", "spurious_failure", "%s failed with %v although the listener accepts and the timeout is generous", desc, d.err)
 			}
 		default:
@@ -397,6 +417,14 @@ func vcRunC14(t *vcTrial, cfg vc14Cfg) {
 	t.Stat("dial_timeout_errors", timeouts)
 	t.Stat("typed_nil_connection_with_error", typedNil)
 	t.Stat("slots_allocated", allocs)
+	if faults != nil {
+		t.Stat("faults_injected", nfaults)
+		for _, ru := range faults.Rules {
+			if ru.fired > 0 {
+				t.Stat("faults@"+vcFaultSiteNames[ru.Site], int(ru.fired))
+			}
+		}
+	}
 	if t.Plan != nil && t.Plan.Mode == vcModePause {
 		t.Stat("pause_pairs_attempted", 1)
 		if t.Plan.Realised() {
@@ -413,7 +441,7 @@ func vcRunC14(t *vcTrial, cfg vc14Cfg) {
 	case failed == cfg.Dials:
 		cls = "fail"
 	}
-	t.Sig = fmt.Sprintf("%s|n=%d|to=%d|%s|real=%v", cfg.Target, vcMinInt(cfg.Dials, 17)/4, cfg.TimeoutUs, cls, t.Plan.Realised())
+	t.Sig = fmt.Sprintf("%s|n=%d|to=%d|%s|real=%v|faults=%v", cfg.Target, vcMinInt(cfg.Dials, 17)/4, cfg.TimeoutUs, cls, t.Plan.Realised(), nfaults > 0)
 }
 
 // vcRunC14Storm: refused dials towards closed ports of the kernel's ephemeral range. About
